@@ -309,3 +309,21 @@ def _slice_from_ref(eng, m, args, fr, dty):
     from .engine import Slice, Ref, Cell, Vec
     v = eng.deref(args[0], fr)
     return Slice(Ref(Cell(Vec([v]))), 0, 1)
+
+
+@model(r'^(std::option::)?Option::<.*>::(and|or|xor|zip)(::<.*>)?$')
+def _option_and_or(eng, m, args, fr, dty):
+    from .engine import NONE, Some, Tup
+    a, b = args
+    op = m.group(2)
+    if op == 'and':
+        return b if a.variant == 'Some' else NONE()
+    if op == 'or':
+        return a if a.variant == 'Some' else b
+    if op == 'zip':
+        return Some(Tup(a.fields[0], b.fields[0])) if a.variant == 'Some' and b.variant == 'Some' else NONE()
+    if a.variant == 'Some' and b.variant == 'None':
+        return a
+    if a.variant == 'None' and b.variant == 'Some':
+        return b
+    return NONE()
